@@ -40,6 +40,20 @@ PROPS = {
                     "the hand-written unknown handling inside individual functions is decided by the oracle only",
                     "KF-C12-1: setproduct's length lower bound of 1 for possibly-empty arguments (pinned by the existing test suite)"],
     },
+    "C13": {
+        "n_quick": 2700, "n_thorough": 40000,
+        "check_fn": "k13_check",
+        "rule": "27 functions (length, element, hasindex, index, lookup, contains, keys, values, merge, concat, flatten, slice, chunklist, distinct, compact, reverse, sort, zipmap, range, "
+                "coalesce, coalescelist, set membership / union / intersection / subtraction / symmetric difference, setproduct) round-robin x wholly known argument lists from the per-function "
+                "generators (empty and non-empty collections, duplicates, nulls where allowed, list/tuple and map/object forms, negative / fractional / huge / out-of-range indices, sizes and steps, "
+                "infinities); every call compared with the Gallina reference (value and type; errors by class); non-trivial = every call",
+        "trusted_base": TB_VALUE + ["the reference (Model/StdRef.v) is a specification written from the functions' documentation; where it uses type unification and conversion it calls the "
+                                    "model of cty/convert (C08/C09), and the null-argument rule reads the parameter declarations from the generated specification table"],
+        "assumptions": ["negative zero is not generated (it is equal to zero but hashed apart inside sets: KF-C03-1)", "numbers with binary exponent beyond +-600 are not generated"],
+        "partial": ["theorems are laws of the reference (reverse involution, chunk partition / bounds, slice length / whole / adjacency, index wrap-around, product count / widths, sort "
+                    "ascending and permutation); that the implementation equals the reference is decided per generated call by the correspondence, not proved"],
+        "corr_cases_are_inputs": True,
+    },
     "C15": {
         "n_quick": 420, "n_thorough": 9000,
         "check_fn": "k15_check",
